@@ -27,8 +27,8 @@ ASSUMPTIONS = [
     "OS scheduling of the real pool is only sampled; every completion order is reachable through the shim",
     "hash seeds are sampled (5 values), the number of distinct feature iteration orders seen is reported as a class",
 ]
-BUDGET = {"quick": 260, "thorough": 3000}
-DEADLINE_S = {"quick": 230, "thorough": 2800}
+BUDGET = {"quick": 260, "thorough": 6000}
+DEADLINE_S = {"quick": 230, "thorough": 3300}
 CLASSES = ("Discretizer", "Discretizer", "QualitativeDiscretizer", "QuantitativeDiscretizer", "BinaryCarver", "ContinuousCarver", "MulticlassCarver")
 SEEDS = {"quick": [0, 1, 31337], "thorough": [0, 1, 2, 7, 31337]}
 REQUEST_TIMEOUT_S = 90
